@@ -96,6 +96,7 @@ type proxyCfg struct {
 	ProviderType          string // "" = oidc; "keycloak-oidc"; "entra-id"
 	EntraAllowedTenants   []string
 	IdPAdvertisedPKCE     []string // code_challenge_methods_supported of the discovery document (nil = S256 and plain)
+	RedisRealTime         bool     // miniredis TTLs run down in real time (they are otherwise frozen): locks and entries really expire
 }
 
 type testEnv struct {
@@ -113,9 +114,13 @@ type testEnv struct {
 	emitCookieOps bool              // emit a `mkcookie` model comparison for every Set-Cookie (suite cookieattrs)
 	redisFault    map[string]string // upper-case command → "before" | "after" (one shot)
 	redisOutage   atomic.Bool       // while set EVERY Redis command is answered with an error (restart / LOADING / network outage)
+	stopClock     chan struct{}
 }
 
 func (e *testEnv) close() {
+	if e.stopClock != nil {
+		close(e.stopClock)
+	}
 	e.idp.close()
 	for _, u := range e.ups {
 		u.srv.Close()
@@ -318,6 +323,23 @@ func newEnv(c *suiteCtx, cfg proxyCfg) (*testEnv, error) {
 			p.WriteError("ERR verif: injected redis fault")
 			return true
 		})
+		if cfg.RedisRealTime {
+			e.stopClock = make(chan struct{})
+			go func(stop chan struct{}) {
+				last := time.Now()
+				tk := time.NewTicker(5 * time.Millisecond)
+				defer tk.Stop()
+				for {
+					select {
+					case <-stop:
+						return
+					case now := <-tk.C:
+						mr.FastForward(now.Sub(last))
+						last = now
+					}
+				}
+			}(e.stopClock)
+		}
 		o.Session.Type = options.RedisSessionStoreType
 		o.Session.Redis.ConnectionURL = "redis://" + mr.Addr() + "?max_retries=-1"
 	}
